@@ -61,7 +61,7 @@ def _gen_spec():
 
 GEN_SPEC = _gen_spec()
 QUICK_N = 560
-THOROUGH_N = 9000
+THOROUGH_N = 6000
 SHARD = 70
 DRIVER_TIMEOUT = 1200
 RULE = ("mix of 4 case kinds: parser histories (22%: 1-60 requests through one token.Parser with secret/prevSecret, "
@@ -71,7 +71,7 @@ RULE = ("mix of 4 case kinds: parser histories (22%: 1-60 requests through one t
         "Bearer/bearer/absent schemes), signed requests (43%: correctly signed + every single-field tampering + key/secret/"
         "fingerprint/header defects + timestamps at tol-1,tol,tol+1,+-5 and extreme/non-numeric values, strict and non-strict, "
         "all methods, X-Request-Uri, encrypted bodies), RPC authenticator histories (15%: miniredis hash contents x metadata "
-        "shapes x strict x outages). non-trivial = a history with both an admitted and a refused request / a signed request "
+        "shapes x strict x outages); the thorough tier adds the original and all 6 single-field/key tamperings of 200 base requests. non-trivial = a history with both an accepted and a refused request / a signed request "
         "on a guarded method with a parsable header / an RPC history with both outcomes; distinct = distinct canonical case JSON")
 TRUSTED = ["golang-jwt/jwt v4 (signature + time-claim verdict per (Authorization header, secret) tabulated by the driver by "
            "calling request.ParseFromRequest directly; contract err==nil <-> Valid & MapClaims measured per case)",
@@ -137,13 +137,13 @@ def _gen_reqs(rng, ntok, long_hist):
     fav = rng.randrange(ntok)
     for _ in range(n):
         r = rng.random()
-        tok = fav if r < 0.45 else (rng.randrange(ntok) if r < 0.95 else -1)
+        tok = fav if r < 0.35 else (rng.randrange(ntok) if r < 0.95 else -1)
         if rng.random() < 0.15:
             fav = rng.randrange(ntok)
         s = rng.random()
         scheme = "Bearer " if s < 0.78 else rng.choice(["bearer ", "BEARER ", "", "Basic ", "Bearer  ", "Bearer"])
         a = rng.random()
-        adv = 0 if a < 0.8 else rng.choice([1, 30, 3600, 50000, 90000])
+        adv = 0 if a < 0.86 else rng.choice([1, 30, 3600, 50000, 90000])
         reqs.append({"tok": tok, "scheme": scheme, "advance": adv})
     return reqs
 
@@ -243,7 +243,7 @@ def gen_sig(rng, variant=None):
     elif v == "t-key":
         c["signkey"] = rng.choice([k for k in KEYS if k != c["keyb64"]])
     elif v == "routed-path":
-        # X-Request-Uri present: the routed path differs from the signed one, still admitted (recorded note)
+        # X-Request-Uri present: the routed path differs from the signed one, still accepted (recorded note)
         c["xuri"] = "/signed/path?s=1"
         c["signpath"], c["signquery"] = "/signed/path", "s=1"
     elif v == "off-in":
@@ -378,6 +378,15 @@ def gen_rpc(rng):
 
 def generate(rng, tier, n):
     cases = []
+    if tier == "thorough":
+        # every single-field tampering (and the untouched original) of 200 base requests, strict mode
+        import random
+        for _ in range(200):
+            seed = rng.getrandbits(48)
+            for v in ["valid", "t-ts", "t-method", "t-path", "t-query", "t-body", "t-key"]:
+                c = gen_sig(random.Random(seed), v)
+                c["strict"] = True
+                cases.append(c)
     for _ in range(n):
         r = rng.random()
         if r < 0.22:
@@ -575,7 +584,7 @@ def enc_rpc(case, obs):
     return "CRpc (mkrc %s %s)" % (cbool(case["strict"]), clist(steps))
 
 
-# a gate that panics neither admits nor refuses properly: encoded as a case both checkers reject
+# a gate that panics neither accepts nor refuses properly: encoded as a case both checkers reject
 PANIC_TERM = "CRpc (mkrc true [mkrs false [] None (0)%Z])"
 
 
@@ -624,17 +633,17 @@ def bucket(case, obs):
             out.append("jwt:callback=" + case["callback"])
             for r in obs["rows"]:
                 out.append("jwt:%d" % r["status"])
-            # bearer-less but valid header admitted (recorded note)
+            # bearer-less but valid header accepted (recorded note)
             for rq, r in zip(case["reqs"], obs["rows"]):
                 if r["ran"] and rq["scheme"] == "":
-                    out.append("note:admitted-without-Bearer-prefix")
+                    out.append("note:accepted-without-Bearer-prefix")
     elif k == "sig":
         out.append("sig:" + case["intent"]["variant"])
         out.append("sig:%s:%d%s" % ("strict" if case["strict"] else "lax", obs["status"], "" if obs["ran"] else ":blocked"))
         if obs["now0"] != obs["now1"]:
             out.append("sig:clock-ticked")
         if case["intent"]["variant"] == "routed-path" and obs["ran"]:
-            out.append("note:routed-path-differs-from-signed-path-admitted")
+            out.append("note:routed-path-differs-from-signed-path-accepted")
     else:
         out.append("rpc:" + ("strict" if case["strict"] else "lax"))
         for r in obs["rows"]:
@@ -647,7 +656,7 @@ def bucket(case, obs):
 def explain(case, obs):
     k = case["kind"]
     if "driver_panic" in obs:
-        return "the %s gate panicked instead of admitting or refusing the request: %s" % (k, obs["driver_panic"])
+        return "the %s gate panicked instead of accepting or refusing the request: %s" % (k, obs["driver_panic"])
     if k == "parser":
         return ("ParseToken's accept/refuse differs from 'the jwt library accepts the token under secret or prevSecret' "
                 "(c04_jwt_iff), or a secret other than the two configured ones was counted")
@@ -661,9 +670,4 @@ def explain(case, obs):
                 "equals HMAC(key, ts\\nmethod\\npath\\nquery\\nsha256(body)); otherwise 403 (c04_sig_strict_iff, c04_tamper_rejected, "
                 "c04_strict_403); non-strict and other methods pass through")
     return ("Authenticate's observed grpc code contradicts C04.Exec.rpc_spec_ok: reject without app/token metadata or on token mismatch, "
-            "admit on match; no stored token / store failure rejected only in strict mode (c04_rpc_table)")
-
-
-def shrink(v):
-    """drop trailing rows of a history case while it stays a violation is not possible without re-running; keep as is."""
-    return v
+            "accept on match; no stored token / store failure rejected only in strict mode (c04_rpc_table)")
